@@ -63,7 +63,7 @@ Vocabulary (from `Xsm/Proofs/Termination.lean`):
 2. *"chains shorter than the bound run to their natural end"*: the counter is reset whenever a chain ends,
    after a FAILED macrostep too (`counter_reset_when_chain_ends`, `counter_reset_after_failed_macrostep`),
    every digested command leaves it at 0 (`async_run_quiet`), and a run of the loop in which the machine
-   sends itself at most `maxIterations` events is never cut (`short_chain_not_cut_async`). The former
+   sends itself at most `maxIterations` events IN TOTAL is never cut (`short_chain_not_cut_async`; see F70 below). The former
    counterexample `leaked_counter_cuts_short_chain` is replaced by `failed_chains_do_not_leak` (same witness).
 **The last sentence of the property, sync engine** (repaired in the library: F10; the model follows):
 3. the budget of one `_process_event_queue()` is `maxIterations` PLUS the number of events queued when the
@@ -77,6 +77,18 @@ Vocabulary (from `Xsm/Proofs/Termination.lean`):
    needs MORE than `maxIterations` of them). The former counterexample `sync_burst_throttled` is replaced by
    `sync_burst_not_throttled` (same witness). The cut still clears the whole queue
    (`drainLoop_exhausted_clears_queue`) — which then holds only events enqueued during the drain.
+**What the positive theorems do NOT say (open finding F70).** `short_chain_not_cut_async` and
+`short_chain_not_cut_sync` bound the TOTAL number of events the machine sends itself during one BUSY PERIOD
+(one run of the loop / one drain: `asyncSelfSends`, `drainRaised` — over ALL events processed in it), not the
+length of each causal chain. Both engines count that way: the async counter `_raise_depth` is reset only when
+nothing self-raised is pending, the sync budget is `maxIterations` + the queue length at the start of the drain
+and every dequeue counts. Read per CAUSAL CHAIN (the events raised, transitively, while ONE external event is
+handled — the reading the monitor `c14.c04_monitor`, rule `short-chains-cut-by-burst`, checks) the clause
+"chains shorter than the bound run to their natural end" FAILS on both engines: a burst of more than
+`maxIterations` external events each of which raises one event — independent chains of length 1 — is cut.
+Witness (`shortM`: `E` raises `R` once, bound 3; four `E` queued by one `send_events`):
+`burst_of_short_chains_is_cut_async` (all four `R` discarded) and `burst_of_short_chains_is_cut_sync` (the fourth
+`R` discarded). They do not contradict the positive theorems: the total of the busy period is 4 > 3.
 The "error log" of a cut is outside the model (no record is emitted for it).
 -/
 namespace XSM.C13
@@ -531,6 +543,31 @@ example : (asyncSelfSends shortM u0 (asyncFuel shortM) { running with queue := [
 example : (asyncSelfSends fanM u0 (asyncFuel fanM) { running with queue := [⟨.user "E", false⟩] },
     asyncTrips fanM u0 (asyncFuel fanM) { running with queue := [⟨.user "E", false⟩] }) = (4, 1) := by decide
 
+/-- **Counterexample to the per-causal-chain reading (F70, async; open).** `shortM`, bound 3: `E` raises `R` once,
+    `R` raises nothing — every external `E` starts a chain of length 1. ALONE such a chain is within the bound,
+    is not cut and its `R` is received. FOUR of them queued together (`send_events([E, E, E, E])`, or four sends
+    while the loop is busy): the counter is never reset while a self-raised event is pending, reaches 4 > 3 after
+    the fourth `E`, and the breaker — fired by the first `R` dequeued — purges all four `R`: every `E` is received,
+    NO `R` is. The interpreter stays running with an empty queue. The hypothesis of `short_chain_not_cut_async`
+    does not hold for this run (4 self-sends in the busy period), so the theorem is not contradicted: it bounds
+    the total of a busy period, not a chain. -/
+theorem burst_of_short_chains_is_cut_async :
+    let e : QEv := ⟨.user "E", false⟩
+    let one : St := { running with queue := [e] }
+    let s0 : St := { running with queue := [e, e, e, e] }
+    (shortM.maxIterations, asyncSelfSends shortM u0 (asyncFuel shortM) one,
+      asyncTrips shortM u0 (asyncFuel shortM) one, count "sawR@R" (asyncDrain shortM u0 (asyncFuel shortM) one)) = (3, 1, 0, 1) ∧
+    (asyncLogQ shortM u0 (asyncFuel shortM) s0).map (·.ev.type) = ["E", "E", "E", "E"] ∧
+    count "sawR@R" (asyncDrain shortM u0 (asyncFuel shortM) s0) = 0 ∧
+    asyncTrips shortM u0 (asyncFuel shortM) s0 = 1 ∧
+    ((asyncDrain shortM u0 (asyncFuel shortM) s0).status, evTypes (asyncDrain shortM u0 (asyncFuel shortM) s0)) = ("running", []) ∧
+    asyncSelfSends shortM u0 (asyncFuel shortM) s0 = 4 := by decide
+/-- … five of them: the fifth `E` (external) is dequeued with the counter at 4, the breaker purges the four `R`
+    queued so far and `E` is processed from 0: one `R` of five survives (in general `N mod (maxIterations + 1)`
+    of `N`; the code with its default bound 1000 and a burst of 1500: 499) -/
+example : let e : QEv := ⟨.user "E", false⟩
+    count "sawR@R" (asyncDrain shortM u0 (asyncFuel shortM) { running with queue := [e, e, e, e, e] }) = 1 := by decide
+
 /-- **The former Deviation 2 (F31), repaired outcome.** `errChainM`, bound 3: `E` raises `R`; handling `R`
     runs `sawR` and then fails on a missing action. The counter IS reset after the failed macrostep: after
     three such (independent, length-1) chains it stands at 0 with an empty queue (before the repair: 3),
@@ -613,6 +650,24 @@ theorem short_chain_not_cut_send_sync (m : Machine) (u : UEnv) (e : Ev) (s : St)
         drainFlagged m u { s with queue := s.queue ++ [⟨e, false⟩] } := by
   have hc := short_chain_not_cut_sync m u { s with queue := s.queue ++ [⟨e, false⟩] } h
   exact ⟨hc, fun n hn => Term.drainLoop_fuel_mono m u _ _ hc n hn⟩
+
+/-- **Counterexample to the per-causal-chain reading (F70, sync; open).** The same witness on the sync engine: one
+    `E` alone enqueues one event while draining, is not cut, its `R` is received. Four `E` queued by one
+    `send_events`: the budget is 3 + 4 = 7 and EVERY dequeue counts, so after `E E E E R R R` it is exhausted and
+    the cut clears the queue — the fourth `R`, the whole (length 1) chain of the fourth `E`, is discarded (in general
+    `N - maxIterations` of `N`). The hypothesis of `short_chain_not_cut_sync` does not hold (4 events enqueued
+    while draining): it bounds the total of a drain, not a chain. -/
+theorem burst_of_short_chains_is_cut_sync :
+    let e : QEv := ⟨.user "E", false⟩
+    let one : St := { running with queue := [e] }
+    let s0 : St := { running with queue := [e, e, e, e] }
+    (shortM.maxIterations, (drainRaised shortM u0 (drainBudget shortM one) one).length,
+      drainCut shortM u0 (drainBudget shortM one) one, count "sawR@R" (drainFlagged shortM u0 one)) = (3, 1, false, 1) ∧
+    (drainLog shortM u0 (drainBudget shortM s0) s0).map (·.type) = ["E", "E", "E", "E", "R", "R", "R"] ∧
+    count "sawR@R" (drainFlagged shortM u0 s0) = 3 ∧
+    drainCut shortM u0 (drainBudget shortM s0) s0 = true ∧
+    ((drainFlagged shortM u0 s0).status, evTypes (drainFlagged shortM u0 s0)) = ("running", []) ∧
+    (drainRaised shortM u0 (drainBudget shortM s0) s0).length = 4 := by decide
 
 /-- **The former Deviation 3 (F10), repaired outcome.** Five plain external events queued by one call
     (`send_events`) with bound 3 — no chain at all: all five are processed (before the repair: 3, the last
